@@ -633,7 +633,7 @@ static void free_vec(char **arr, std::vector<char *> &store) { for (char *c : st
 
 static int do_call(OpState &st, const ExecOp &op, char *path, char **argv, char **envp, volatile long *ret, volatile int *err) {
     if (st.jmp_armed && setjmp(st.exec_jmp) != 0) { t_in_sut = 0; return 0; }
-    t_in_sut = 1; errno = 0;
+    t_in_sut = 1; errno = op.entry_errno;
     long r = op.api == 0 ? p_execv(path, argv) : p_execve(path, argv, envp);
     int e = errno;
     t_in_sut = 0;
